@@ -203,6 +203,9 @@ def calls_violations(drv, cases, corr=None):
         ops = []
         for k, (beta, steps, calls, counted) in enumerate(trace):
             ops.append("w" if beta == 0.0 else f"m:{steps}")
+            if beta != 0.0 and not (min(1 * 2, 2 * 2) <= steps <= max(1, 2 * 2)):     # n_steps=1, n_max_steps=2, d=2 in _run
+                bad.append({"what": f"iteration {k + 1}: {steps} accept/reject steps, outside the proved range [2, 4] (C13_steps_bounded_from_start)",
+                            "strategy": name, "kernel": kernel, "blobs": blobs, "seed": seed})
             lines.append(f"calls.run np=16 nw=16 ops={';'.join(ops)}")
             recs.append((name, kernel, blobs, seed, k, calls, counted, len(ops) > 1 and "w" in ops and any(o != "w" for o in ops)))
     for (name, kernel, blobs, seed, k, calls, counted, nontriv), line, ans in zip(recs, lines, drv.batch(lines)):
@@ -222,10 +225,48 @@ def calls_violations(drv, cases, corr=None):
     return bad
 
 
+def suite_steps(drv, tier):
+    """the adaptive stopping rule of the mutation loop: real _calculate_adaptive_steps / _check_convergence vs the Float model (bit-exact),
+    and the proved bounds min(n_steps d, n_max d) <= steps <= max(1, n_max d) on real mutations"""
+    import tempest.mcmc as mcmc
+    from tempest.modes import ModeStatistics
+    c = Corr("adaptive-steps", "bit-exact Float")
+    rng = common.rng_for("C13.steps")
+    lines, impl = [], []
+    for _ in range(400 if tier == "quick" else 6000):
+        d = rng.randint(1, 5)
+        K = rng.randint(1, 3)
+        n = rng.randint(K, 12)
+        ns, nm = rng.randint(1, 6), rng.randint(1, 30)
+        ms = ModeStatistics(np.zeros((K, d)), np.array([np.eye(d)] * K), np.full(K, 3.0))
+        assign = np.array([rng.randrange(K) for _ in range(n)])
+        kind = rng.choice([mcmc.RWMRunner, mcmc.TPCNRunner])
+        r = kind(np.full((n, d), 0.5), np.zeros((n, d)), np.zeros(n), None, assign, 0.5, ms, None, None, None, ns, nm, None, None, False)
+        r.sigmas = np.array([rng.choice([rng.uniform(1e-8, 3.0), 1e-7, 0.99, r.sigma_0]) for _ in range(K)])
+        r.iteration = rng.randint(1, nm * d + 2)
+        acc = rng.choice([0.0, 0.005, 0.01, 0.234, 1.0, rng.random()])
+        sizes = np.array([int(np.sum(assign == k)) for k in range(K) if np.sum(assign == k) > 0])
+        ws = float(np.average(r.sigmas[: len(sizes)], weights=sizes))     # as the code computes it
+        steps = r._calculate_adaptive_steps(acc)
+        conv = bool(r._check_convergence(acc))
+        lines.append(f"steps.F nsteps={ns} nmax={nm} d={d} iter={r.iteration} acc={common.f2hex(acc)} ws={common.f2hex(ws)} s0={common.f2hex(r.sigma_0)}")
+        impl.append((steps, conv, ns, nm, d))
+    for line, (steps, conv, ns, nm, d), ans in zip(lines, impl, drv.batch(lines)):
+        c.case(line, True)
+        c.count("converged" if conv else "continue")
+        a, b = ans.split(" ")
+        if common.hex2f(a) != float(steps) or (b == "1") != conv:
+            c.disagree(input=line, impl=[steps, conv], model=ans)
+        elif not (min(ns * d, nm * d) <= steps <= nm * d):
+            c.disagree(input=line, impl=steps, model=f"bounds [{min(ns * d, nm * d)}, {nm * d}] (adaptiveRaw_bounds)")
+    c.sample({"op": lines[0], "impl": impl[0][:2]})
+    return c
+
+
 def correspond(tier):
     drv = common.Driver()
     rng = common.rng_for("C13")
-    out = [suite_dispatch(drv, tier)]
+    out = [suite_dispatch(drv, tier), suite_steps(drv, tier)]
     c = Corr("strategy-transparency", "exact (bit-identical fingerprints of paired seeded runs)")
     cases = [("tpcn", False, rng.randrange(2 ** 31)), ("rwm", True, rng.randrange(2 ** 31))]
     if tier == "thorough":
